@@ -572,7 +572,7 @@ pub fn hook(kind: u32, addr: usize, a: u64, b: u64) -> u64 {
             0
         }
         kv::YIELD if a == 0 => 0, // spin_loop hint: pure busy-wait, not an event
-        kv::OBJ_DEAD | kv::THREAD_CLONE | kv::NOTE | kv::PTR_COPY => {
+        kv::OBJ_DEAD | kv::THREAD_CLONE | kv::PTR_COPY => {
             record(kind, addr, a, b, None);
             0
         }
